@@ -1413,4 +1413,282 @@ theorem callableArgs_iff (ar : String → Nat) : (ps args : List Ty) → declara
     | none => simp
     | some b => cases b <;> simp
 
+/-! ## completeness: data types, `common_type` succeeds under a common upper bound -/
+
+mutual
+/-- fully known data types: no function type (callable / XFunc), no generic parameter; `unknown` allowed -/
+def data : Ty → Bool
+  | .func _ _ _ _ => false
+  | .callable _ _ => false
+  | .generic _ => false
+  | .tuple ts => dataList ts
+  | .native _ ts => dataList ts
+  | .compound _ _ ts => dataList ts
+  | _ => true
+def dataList : List Ty → Bool
+  | [] => true
+  | t :: ts => data t && dataList ts
+end
+
+mutual
+theorem data_ground : (t : Ty) → data t = true → ground t = true
+  | .bool, _ | .int, _ | .float, _ | .str, _ | .unknown, _ => rfl
+  | .generic _, h => by simp [data] at h
+  | .func _ _ _ _, h => by simp [data] at h
+  | .callable _ _, h => by simp [data] at h
+  | .tuple ts, h => by simp only [data] at h; simp only [ground]; exact dataList_ground ts h
+  | .native _ ts, h => by simp only [data] at h; simp only [ground]; exact dataList_ground ts h
+  | .compound _ _ ts, h => by simp only [data] at h; simp only [ground]; exact dataList_ground ts h
+theorem dataList_ground : (ts : List Ty) → dataList ts = true → groundList ts = true
+  | [], _ => rfl
+  | t :: ts, h => by
+    simp only [dataList, Bool.and_eq_true] at h
+    simp only [groundList, Bool.and_eq_true]; exact ⟨data_ground t h.1, dataList_ground ts h.2⟩
+end
+
+/-! ### `common_type` succeeds whenever the two types have a common upper bound -/
+mutual
+theorem commonType_complete : (a b d : Ty) → data a = true → data b = true → Sub a d → Sub b d →
+    ∃ c, commonType a b = some c ∧ data c = true
+  | a, b, d, ha, hb, h1, h2 => by
+    unfold commonType
+    by_cases hbeq : Ty.beq a b = true
+    · simp only [hbeq, if_true]; exact ⟨a, rfl, ha⟩
+    · simp only [hbeq, Bool.false_eq_true, if_false]
+      cases a with
+      | unknown => refine ⟨b, ?_, hb⟩; cases b <;> simp_all [Ty.beq]
+      | func _ _ _ _ => simp [data] at ha
+      | callable _ _ => simp [data] at ha
+      | generic _ => simp [data] at ha
+      | bool =>
+        rcases (sub_bool_iff b).mp (by cases h1; exact h2) with rfl | rfl
+        · exact ⟨.bool, rfl, rfl⟩
+        · simp [Ty.beq] at hbeq
+      | int =>
+        rcases (sub_int_iff b).mp (by cases h1; exact h2) with rfl | rfl
+        · exact ⟨.int, rfl, rfl⟩
+        · simp [Ty.beq] at hbeq
+      | float =>
+        rcases (sub_float_iff b).mp (by cases h1; exact h2) with rfl | rfl
+        · exact ⟨.float, rfl, rfl⟩
+        · simp [Ty.beq] at hbeq
+      | str =>
+        rcases (sub_str_iff b).mp (by cases h1; exact h2) with rfl | rfl
+        · exact ⟨.str, rfl, rfl⟩
+        · simp [Ty.beq] at hbeq
+      | tuple as =>
+        cases h1 with
+        | tuple hh1 =>
+          rename_i ds
+          rcases (sub_tuple_iff b ds).mp h2 with rfl | ⟨bs, rfl, hh2⟩
+          · exact ⟨.tuple as, rfl, ha⟩
+          · simp only [data] at ha hb
+            obtain ⟨cs, hz, hdc⟩ := commonZip_complete as bs ds ha hb hh1 hh2
+            have hl : as.length = bs.length := by rw [hh1.length_eq, hh2.length_eq]
+            exact ⟨.tuple cs, by simp [hl, hz], by simpa [data] using hdc⟩
+      | native n as =>
+        cases h1 with
+        | native hh1 =>
+          rename_i ds
+          rcases (sub_native_iff b n ds).mp h2 with rfl | ⟨bs, rfl, hh2⟩
+          · exact ⟨.native n as, rfl, ha⟩
+          · simp only [data] at ha hb
+            obtain ⟨cs, hz, hdc⟩ := commonZip_complete as bs ds ha hb hh1 hh2
+            exact ⟨.native n cs, by simp [hz], by simpa [data] using hdc⟩
+      | compound k n as =>
+        cases h1 with
+        | compound hh1 =>
+          rename_i ds
+          rcases (sub_compound_iff b k n ds).mp h2 with rfl | ⟨bs, rfl, hh2⟩
+          · exact ⟨.compound k n as, rfl, ha⟩
+          · simp only [data] at ha hb
+            obtain ⟨cs, hz, hdc⟩ := commonZip_complete as bs ds ha hb hh1 hh2
+            exact ⟨.compound k n cs, by simp [hz], by simpa [data] using hdc⟩
+theorem commonZip_complete : (as bs ds : List Ty) → dataList as = true → dataList bs = true →
+    SubList as ds → SubList bs ds → ∃ cs, commonZip as bs = some cs ∧ dataList cs = true
+  | [], bs, ds, _, _, _, _ => ⟨[], by simp [commonZip], rfl⟩
+  | a :: as, [], ds, _, _, h1, h2 => by cases h2; cases h1
+  | a :: as, b :: bs, ds, ha, hb, h1, h2 => by
+    simp only [dataList, Bool.and_eq_true] at ha hb
+    cases h1 with
+    | cons h1a h1b =>
+      cases h2 with
+      | cons h2a h2b =>
+        obtain ⟨c, hc, hdc⟩ := commonType_complete a b _ ha.1 hb.1 h1a h2a
+        obtain ⟨cs, hz, hdcs⟩ := commonZip_complete as bs _ ha.2 hb.2 h1b h2b
+        exact ⟨c :: cs, by simp [commonZip, hc, hz], by simp [dataList, hdc, hdcs]⟩
+end
+
+
+/-! ## completeness of `bind_in_assignment` and minimality of the binding it finds -/
+
+/-- every entry of `b` is below what `σ` gives its key -/
+def bleM (b σ : Bnd) : Prop := ∀ k v, (k, v) ∈ b → ∃ v', Bnd.get σ k = some v' ∧ Sub v v'
+/-- every bound type is a data type -/
+def BData (b : Bnd) : Prop := ∀ k v, (k, v) ∈ b → data v = true
+
+theorem bleM_nil (σ : Bnd) : bleM [] σ := fun _ _ h => by simp at h
+theorem bdata_nil : BData [] := fun _ _ h => by simp at h
+
+theorem bleM_ble {b σ : Bnd} (h : bleM b σ) : ble b σ := fun k v hg => h k v (get_mem b k v hg)
+
+theorem bleM_insert {b σ : Bnd} (k : String) (v v' : Ty) (hb : bleM b σ) (hg : Bnd.get σ k = some v') (hs : Sub v v') :
+    bleM (Bnd.insert b k v) σ := by
+  intro k1 v1 hm
+  rcases mem_insert b k v _ hm with h | h
+  · cases h; exact ⟨v', hg, hs⟩
+  · exact hb k1 v1 h
+
+theorem bdata_insert {b : Bnd} (k : String) (v : Ty) (hb : BData b) (hv : data v = true) : BData (Bnd.insert b k v) := by
+  intro k1 v1 hm
+  rcases mem_insert b k v _ hm with h | h
+  · cases h; exact hv
+  · exact hb k1 v1 h
+
+/-- two bindings below a common `σ` mix, and the result is below `σ` -/
+theorem mix_complete (σ self other : Bnd) (hs : bleM self σ) (ho : bleM other σ) (ds : BData self) (do_ : BData other) :
+    ∃ res, mix self other = some res ∧ bleM res σ ∧ BData res := by
+  induction other generalizing self with
+  | nil => exact ⟨self, rfl, hs, ds⟩
+  | cons e rest ih =>
+    obtain ⟨k, v⟩ := e
+    have hrest : bleM rest σ := fun k' v' hm => ho k' v' (List.mem_cons_of_mem _ hm)
+    have drest : BData rest := fun k' v' hm => do_ k' v' (List.mem_cons_of_mem _ hm)
+    obtain ⟨v', hg', hs'⟩ := ho k v (by simp)
+    have dv : data v = true := do_ k v (by simp)
+    simp only [mix]
+    cases hg : Bnd.get self k with
+    | some ex =>
+      simp only
+      obtain ⟨v'', hg'', hs''⟩ := hs k ex (get_mem self k ex hg)
+      rw [hg'] at hg''; cases hg''
+      obtain ⟨c, hc, dc⟩ := commonType_complete ex v v' (ds k ex (get_mem self k ex hg)) dv hs'' hs'
+      simp only [hc]
+      exact ih (Bnd.insert self k c)
+        (bleM_insert k c v' hs hg' (commonType_least' ex v c v' hc hs'' hs')) hrest (bdata_insert k c ds dc) drest
+    | none =>
+      simp only
+      exact ih (Bnd.insert self k v) (bleM_insert k v v' hs hg' hs') hrest (bdata_insert k v ds dv) drest
+
+theorem gen_aux (σ : Bnd) (a : String) (s : Ty) (hd : data s = true) (hb : bindIn (.generic a) s = some [(a, s)])
+    (hne : s ≠ .unknown ∧ s ≠ .generic a) (h : Sub s (subst σ (.generic a))) :
+    ∃ b, bindIn (.generic a) s = some b ∧ bleM b σ ∧ BData b := by
+  refine ⟨[(a, s)], hb, ?_, ?_⟩
+  · intro k v hm
+    simp only [List.mem_singleton, Prod.mk.injEq] at hm
+    obtain ⟨rfl, rfl⟩ := hm
+    simp only [subst] at h
+    cases hg : Bnd.get σ k with
+    | some v' => rw [hg] at h; exact ⟨v', rfl, h⟩
+    | none =>
+      rw [hg] at h
+      rcases (sub_generic_iff v k).mp h with e | e
+      · exact absurd e hne.1
+      · exact absurd e hne.2
+  · intro k v hm
+    simp only [List.mem_singleton, Prod.mk.injEq] at hm
+    obtain ⟨rfl, rfl⟩ := hm; exact hd
+
+theorem bindIn_generic_complete (σ : Bnd) (a : String) (s : Ty) (hd : data s = true)
+    (h : Sub s (subst σ (.generic a))) : ∃ b, bindIn (.generic a) s = some b ∧ bleM b σ ∧ BData b := by
+  cases s with
+  | unknown => exact ⟨[], by simp [bindIn], bleM_nil σ, bdata_nil⟩
+  | generic _ => simp [data] at hd
+  | func _ _ _ _ => simp [data] at hd
+  | callable _ _ => simp [data] at hd
+  | bool => exact gen_aux σ a _ hd (by simp [bindIn]) (by simp) h
+  | int => exact gen_aux σ a _ hd (by simp [bindIn]) (by simp) h
+  | float => exact gen_aux σ a _ hd (by simp [bindIn]) (by simp) h
+  | str => exact gen_aux σ a _ hd (by simp [bindIn]) (by simp) h
+  | tuple _ => exact gen_aux σ a _ hd (by simp [bindIn]) (by simp) h
+  | native _ _ => exact gen_aux σ a _ hd (by simp [bindIn]) (by simp) h
+  | compound _ _ _ => exact gen_aux σ a _ hd (by simp [bindIn]) (by simp) h
+
+mutual
+theorem bindIn_complete (σ : Bnd) : (r s : Ty) → data s = true → Sub s (subst σ r) →
+    ∃ b, bindIn r s = some b ∧ bleM b σ ∧ BData b
+  | r, .unknown, _, _ => ⟨[], by cases r <;> simp [bindIn], bleM_nil σ, bdata_nil⟩
+  | _, .generic _, hd, _ => by simp [data] at hd
+  | _, .func _ _ _ _, hd, _ => by simp [data] at hd
+  | _, .callable _ _, hd, _ => by simp [data] at hd
+  | .generic a, s, hd, h => bindIn_generic_complete σ a s hd h
+  | .bool, .bool, _, _ | .int, .int, _, _ | .float, .float, _, _ | .str, .str, _, _ =>
+    ⟨[], by simp [bindIn], bleM_nil σ, bdata_nil⟩
+  | .tuple rs, .tuple ss, hd, h => by
+    simp only [subst] at h
+    cases h with
+    | tuple hh =>
+      simp only [data] at hd
+      have hl : rs.length = ss.length := by rw [hh.length_eq, substList_length]
+      obtain ⟨res, hz, h1, h2⟩ := bindZip_complete σ rs ss [] hd hh (bleM_nil σ) bdata_nil
+      exact ⟨res, by simp [bindIn, hl, hz], h1, h2⟩
+  | .native n rs, .native m ss, hd, h => by
+    simp only [subst] at h
+    cases h with
+    | native hh =>
+      simp only [data] at hd
+      obtain ⟨res, hz, h1, h2⟩ := bindZip_complete σ rs ss [] hd hh (bleM_nil σ) bdata_nil
+      exact ⟨res, by simp [bindIn, hz], h1, h2⟩
+  | .compound k n rs, .compound k' m ss, hd, h => by
+    simp only [subst] at h
+    cases h with
+    | compound hh =>
+      simp only [data] at hd
+      obtain ⟨res, hz, h1, h2⟩ := bindZipRev_complete σ rs ss hd hh
+      exact ⟨res, by simp [bindIn, hz], h1, h2⟩
+  -- the remaining pairs have no `Sub` derivation
+  | .bool, .int, _, h | .bool, .float, _, h | .bool, .str, _, h | .bool, .tuple _, _, h | .bool, .native _ _, _, h
+  | .bool, .compound _ _ _, _, h => by simp only [subst] at h; cases h
+  | .int, .bool, _, h | .int, .float, _, h | .int, .str, _, h | .int, .tuple _, _, h | .int, .native _ _, _, h
+  | .int, .compound _ _ _, _, h => by simp only [subst] at h; cases h
+  | .float, .bool, _, h | .float, .int, _, h | .float, .str, _, h | .float, .tuple _, _, h | .float, .native _ _, _, h
+  | .float, .compound _ _ _, _, h => by simp only [subst] at h; cases h
+  | .str, .bool, _, h | .str, .int, _, h | .str, .float, _, h | .str, .tuple _, _, h | .str, .native _ _, _, h
+  | .str, .compound _ _ _, _, h => by simp only [subst] at h; cases h
+  | .unknown, .bool, _, h | .unknown, .int, _, h | .unknown, .float, _, h | .unknown, .str, _, h
+  | .unknown, .tuple _, _, h | .unknown, .native _ _, _, h | .unknown, .compound _ _ _, _, h => by
+    simp only [subst] at h; cases h
+  | .func _ _ _ _, .bool, _, h | .func _ _ _ _, .int, _, h | .func _ _ _ _, .float, _, h | .func _ _ _ _, .str, _, h
+  | .func _ _ _ _, .tuple _, _, h | .func _ _ _ _, .native _ _, _, h | .func _ _ _ _, .compound _ _ _, _, h => by
+    simp only [subst] at h; cases h
+  | .callable _ _, .bool, _, h | .callable _ _, .int, _, h | .callable _ _, .float, _, h | .callable _ _, .str, _, h
+  | .callable _ _, .tuple _, _, h | .callable _ _, .native _ _, _, h | .callable _ _, .compound _ _ _, _, h => by
+    simp only [subst] at h; cases h
+  | .tuple _, .bool, _, h | .tuple _, .int, _, h | .tuple _, .float, _, h | .tuple _, .str, _, h
+  | .tuple _, .native _ _, _, h | .tuple _, .compound _ _ _, _, h => by simp only [subst] at h; cases h
+  | .native _ _, .bool, _, h | .native _ _, .int, _, h | .native _ _, .float, _, h | .native _ _, .str, _, h
+  | .native _ _, .tuple _, _, h | .native _ _, .compound _ _ _, _, h => by simp only [subst] at h; cases h
+  | .compound _ _ _, .bool, _, h | .compound _ _ _, .int, _, h | .compound _ _ _, .float, _, h
+  | .compound _ _ _, .str, _, h | .compound _ _ _, .tuple _, _, h | .compound _ _ _, .native _ _, _, h => by
+    simp only [subst] at h; cases h
+theorem bindZip_complete (σ : Bnd) : (rs ss : List Ty) → (acc : Bnd) → dataList ss = true →
+    SubList ss (substList σ rs) → bleM acc σ → BData acc →
+    ∃ res, bindZip rs ss acc = some res ∧ bleM res σ ∧ BData res
+  | [], ss, acc, _, _, ha, da => ⟨acc, by simp [bindZip], ha, da⟩
+  | r :: rs, [], acc, _, h, _, _ => by simp only [substList] at h; cases h
+  | r :: rs, s :: ss, acc, hd, h, ha, da => by
+    simp only [dataList, Bool.and_eq_true] at hd
+    simp only [substList] at h
+    cases h with
+    | cons h1 h2 =>
+      obtain ⟨sub, hs, s1, s2⟩ := bindIn_complete σ r s hd.1 h1
+      obtain ⟨acc', hm, m1, m2⟩ := mix_complete σ acc sub ha s1 da s2
+      obtain ⟨res, hz, z1, z2⟩ := bindZip_complete σ rs ss acc' hd.2 h2 m1 m2
+      exact ⟨res, by simp [bindZip, hs, hm, hz], z1, z2⟩
+theorem bindZipRev_complete (σ : Bnd) : (rs ss : List Ty) → dataList ss = true →
+    SubList ss (substList σ rs) → ∃ res, bindZipRev rs ss = some res ∧ bleM res σ ∧ BData res
+  | [], ss, _, _ => ⟨[], by simp [bindZipRev], bleM_nil σ, bdata_nil⟩
+  | r :: rs, [], _, h => by simp only [substList] at h; cases h
+  | r :: rs, s :: ss, hd, h => by
+    simp only [dataList, Bool.and_eq_true] at hd
+    simp only [substList] at h
+    cases h with
+    | cons h1 h2 =>
+      obtain ⟨sub, hs, s1, s2⟩ := bindIn_complete σ r s hd.1 h1
+      obtain ⟨acc, hz, z1, z2⟩ := bindZipRev_complete σ rs ss hd.2 h2
+      obtain ⟨res, hm, m1, m2⟩ := mix_complete σ acc sub z1 s1 z2 s2
+      exact ⟨res, by simp [bindZipRev, hs, hz, hm], m1, m2⟩
+end
+
+
 end XrayModel
